@@ -38,7 +38,8 @@ ROOTS = WINDOW_ROOTS + [
     f'{UST}._submit', f'{UST}._submit_upload_request', f'{UST}._submit_multipart_request',
     f'{UP}:PutObjectTask._main', f'{UP}:UploadPartTask._main', f'{T}:CompleteMultipartUploadTask._main',
     f'{CST}._submit', f'{CST}._submit_copy_request', f'{CST}._submit_multipart_request',
-    f'{UT}:calculate_range_parameter',
+    f'{UT}:calculate_range_parameter', 's3transfer.compat:seekable', 's3transfer.compat:readable',
+    f'{CP}:CopyObjectTask._main', f'{CP}:CopyPartTask._main',
 ]
 
 MANIFEST = dict(
